@@ -96,6 +96,8 @@ def opaque_str(I, why):
 def to_str(I, v, repr_=False):
     if isinstance(v, str) and not repr_:
         return I.ctx.to_val(v)
+    if not repr_ and isinstance(v, (SV, int, float, bool)) and (not isinstance(v, SV) or isinstance(v.ty, (TStr, TNum, TBool, TNone, TAny))):
+        return SV(Z.mk_str(render_s(I, v)), TStr())
     return opaque_str(I, "str()/repr()/format of a value")
 
 
@@ -106,12 +108,93 @@ def concat_strs(I, parts):
     return SV(Z.mk_str(z3.Concat(*ts) if len(ts) > 1 else ts[0]), TStr())
 
 
+str_of = z3.Function("str_of", Z.Val, z3.StringSort())  # str(x) of a non-string value: a function of the value (assumed)
+
+
+def replace_all(s, p, r):
+    """z3 str.replace_all (every occurrence, like Python's str.replace)"""
+    import z3.z3core as zc
+
+    ctx = s.ctx
+    return z3.SeqRef(zc.Z3_mk_seq_replace_all(ctx.ref(), s.as_ast(), p.as_ast(), r.as_ast()), ctx)
+
+
+def render_s(I, v):
+    """the text %s / str() produces for a value: the string itself, or str_of(value) for a non-string"""
+    ctx = I.ctx
+    if isinstance(v, str):
+        return z3.StringVal(v)
+    sv = ctx.to_val(v)
+    if isinstance(sv.ty, TStr):
+        return Z.Val.s(sv.t)
+    if isinstance(sv.ty, (TNum, TBool, TNone)):
+        return str_of(sv.t)
+    return z3.If(Z.is_strv(sv.t), Z.Val.s(sv.t), str_of(sv.t))
+
+
+def render_d(I, v):
+    """%d of a number: the decimal digits of its integer part (truncation toward zero)"""
+    sv = I.num_operand(v)
+    n = Z.Val.r(Z.num_trunc(sv.t))
+    k = z3.ToInt(n)
+    return z3.If(k >= 0, z3.IntToStr(k), z3.Concat(z3.StringVal("-"), z3.IntToStr(-k)))
+
+
+def precise_percent(I, fmt, arg):
+    """'literal %s literal %d ...' % args for a constant format of plain %s / %d / %r / %% specifiers"""
+    import re
+
+    parts = re.split(r"(%[sdr%])", fmt)
+    if any("%" in p and p not in ("%s", "%d", "%r", "%%") for p in parts):
+        return None
+    specs = [p for p in parts if p in ("%s", "%d", "%r")]
+    arg2 = I.ctx.from_val(arg) if isinstance(arg, SV) else arg
+    if isinstance(arg2, VTuple):
+        args = list(arg2.items)
+    else:
+        if isinstance(arg2, SV) and isinstance(arg2.ty, (TAny, TRef)) and not isinstance(arg2.ty, (TObj, TAbs)):
+            return None  # may be a tuple: the arity rule decides (handled by the caller)
+        args = [arg2]
+    if len(args) != len(specs):
+        raise PyRaise(I.make_exception(ExternalRef("TypeError"), ["not all arguments converted / not enough arguments"]))
+    out = []
+    it = iter(args)
+    for p in parts:
+        if p == "%%":
+            out.append(z3.StringVal("%"))
+        elif p == "%s":
+            out.append(render_s(I, next(it)))
+        elif p == "%d":
+            out.append(render_d(I, next(it)))
+        elif p == "%r":
+            next(it)
+            return None
+        elif p:
+            out.append(z3.StringVal(p))
+    t = z3.Concat(*out) if len(out) > 1 else (out[0] if out else z3.StringVal(""))
+    return SV(Z.mk_str(z3.simplify(t)), TStr())
+
+
 def str_format_percent(I, fmt, arg):
     h = I.E.externals.get("str.__mod__")
     if h is not None:
         r = h(I, fmt, arg)
         if r is not NotImplemented:
             return r
+    arg2 = I.ctx.from_val(arg) if isinstance(arg, SV) else arg
+    if isinstance(fmt, str):
+        r = precise_percent(I, fmt, arg)
+        if r is not None:
+            return r
+        if isinstance(arg2, SV) and isinstance(arg2.ty, (TAny, TRef)) and not isinstance(arg2.ty, (TObj, TAbs, TExc)):
+            # 'one %s' % x where x is of unknown type: if x is a tuple the arity rule applies and a tuple of another
+            # length raises TypeError (x is a reference: it may be such a tuple)
+            import re
+
+            nspec = len(re.findall(r"%[sdr]", fmt))
+            if nspec == 1 and I.ctx.branch(Z.is_refv(arg2.t), "format-arg-may-be-a-tuple"):
+                if I.ctx.choose(2, "tuple-arity") == 1:
+                    raise PyRaise(I.make_exception(ExternalRef("TypeError"), ["not all arguments converted during string formatting"]))
     return opaque_str(I, "%-formatting")
 
 
@@ -635,7 +718,9 @@ def _isinstance1(I, v, c):
         if isinstance(v, VDict):
             return nat in (cabc.Mapping, cabc.MutableMapping, dict) or nat is object
         if isinstance(v, (VTuple, VList)):
-            return nat in (cabc.Sequence, cabc.Iterable, cabc.Collection)
+            return nat in (cabc.Sequence, cabc.Iterable, cabc.Collection) or nat is (tuple if isinstance(v, VTuple) else list) or nat is object
+        if isinstance(v, VSet):
+            return nat in (cabc.Set, cabc.MutableSet, cabc.Iterable, cabc.Collection, set) or nat is object
         if isinstance(v, PartialFn):
             import functools
 
@@ -893,6 +978,18 @@ def b_sorted(I, args, kw):
             return r
     if conc is not None and len(conc) <= 1 and not kw:
         return VList(conc)
+    if conc is not None and not kw:
+        # items with distinct constant sort keys (str keys of a dict display, or tuples led by them): sorted natively
+        def skey(x):
+            if isinstance(x, VTuple) and x.items and isinstance(x.items[0], str):
+                return x.items[0]
+            if isinstance(x, str):
+                return x
+            raise Unsupported("sorted() of symbolic items")
+
+        keys = [skey(x) for x in conc]
+        if len(set(keys)) == len(keys):
+            return VList([x for _, x in sorted(zip(keys, conc), key=lambda p: p[0])])
     raise Unsupported("sorted()")
 
 
@@ -1065,6 +1162,10 @@ def call_method(I, obj, name, args, kwargs):
             return None
         if name == "copy":
             return VSet(obj.items)
+    if is_strlike(obj) and name == "replace" and len(args) == 2 and not (isinstance(obj, str) and all(isinstance(a, str) for a in args)):
+        st = Z.Val.s(ctx.to_val(obj).t)
+        p, r = [Z.Val.s(ctx.to_val(a).t) if not isinstance(a, str) else z3.StringVal(a) for a in args]
+        return SV(Z.mk_str(replace_all(st, p, r)), TStr())
     if isinstance(obj, str):
         if all(isinstance(a, str) for a in args) and not kwargs and name in ("replace", "split", "partition", "startswith", "endswith", "strip", "lower", "upper", "rpartition"):
             r = getattr(obj, name)(*args)
